@@ -65,12 +65,12 @@ def neighbours_on_loop(edges):
     return adj
 
 
-def loop_candidates(H, W):
+def loop_candidates(H, W, full_small=True):
     """A superset of all single loops of the lattice, as flat answers: every subset of edges if there are at most 12
     edges, else every subset in which each point has 0 or 2 line ends (a point of a loop has exactly two; branching or
     dead ends are never a loop)."""
     E = n_edges(H, W)
-    if E <= 12:
+    if E <= 12 and full_small:
         for vals in itertools.product([False, True], repeat=E):
             yield list(vals)
         return
